@@ -72,20 +72,32 @@ def safe_eval(ref):
         return False, e
 
 
+_HANGS = {"n": 0}
+
+
 def observe(case):
     """Build the case's modules, run graph.static_order on the root; returns (live, nodes | exception)."""
     from typelib import graph
     live = G.Live(case)
     impl.clear_caches()
     root = live.obj(case["root"])
+    # circuit breaker: a tree on which static_order does not return for a whole family of inputs must not cost
+    # 130 s per case (round-7 seeded change C09-r7m1 kept the quick tier busy for more than half an hour): after 3
+    # calls that did not return even on the generous retry, later calls get 5 s and no retry; after 25, later cases
+    # are not run any more (they are counted as not returning: the violation is established and replayable already)
+    if _HANGS["n"] >= 25:
+        return live, root, TimeoutError("not run: static_order did not return on 25 earlier cases of this run")
     try:
         try:
-            nodes = with_alarm(10, lambda: list(graph.static_order(root)))
+            nodes = with_alarm(10 if _HANGS["n"] < 3 else 5, lambda: list(graph.static_order(root)))
         except _Timeout:
+            if _HANGS["n"] >= 3:
+                raise
             # a stalled process on a loaded machine is not a hang of static_order: one retry, generously
             impl.clear_caches()
             nodes = with_alarm(120, lambda: list(graph.static_order(root)))
     except _Timeout:
+        _HANGS["n"] += 1
         return live, root, TimeoutError("static_order did not return within 10 s (and 120 s on retry)")
     except Exception as e:  # noqa: BLE001
         return live, root, e
@@ -779,6 +791,11 @@ def search(run: lib.Run, broken):
     for case in pool:
         if case["tag"].startswith("unresolvable"):
             continue      # unresolvable names are not annotations of U: tied by the correspondence only
+        if len(fails) >= 300:
+            # the violation is established and has replays: a tree that fails on thousands of cases must not keep
+            # the check busy for half an hour (seeded change C09-r7m1)
+            run.notes.append("oracle stopped after 300 failures; the remaining cases of the pool were not judged")
+            break
         fs = oracle(case, forms=not case.get("noforms"))
         nontriv += 1 if (case["classes"] or case["root"][0] in ("gen", "union")) else 0
         for x in fs:
